@@ -402,6 +402,9 @@ func c13WholeGen(r *rand.Rand, tier string) *sim.Scn {
 		"lazy": r.Int64N(2), "maxpending": []int64{0, 0, 2, 5}[r.IntN(4)], "dalat": []int64{0, 5, 50, 300}[r.IntN(4)], "execlat": []int64{0, 0, 20, 400}[r.IntN(4)],
 		"jitter": []int64{0, 0, 0, 400, 4000}[r.IntN(5)], "jsalt": r.Int64N(1 << 30),
 	}}
+	if tier != "thorough" && s.Cfg["jitter"] > 400 {
+		s.Cfg["jitter"] = 400 // the slowest goroutines make a whole-node scenario take minutes: thorough tier only
+	}
 	if r.IntN(4) == 0 {
 		s.Cfg["mempoolhang"] = int64(50 + r.IntN(3000))
 	}
